@@ -40,12 +40,14 @@ type Exec struct {
 	specErrors []string
 	usedSpecs  map[string]*FuncSpec
 	wsCache    map[*ssa.Function]map[string]bool
+	globalByRef map[string]*ssa.Global
 }
 
 type modLoc struct {
 	ref  string // object ref term
 	cond string // condition under which the location may be modified
 	all  bool
+	pred func(r string) string
 }
 
 // frame is one activation: the verified function or an inlined callee.
@@ -382,7 +384,44 @@ func (e *Exec) loopClauses(fr *frame, ord int, kind string) []*Clause {
 	return out
 }
 
+// autoRangeInv: for a compiler-generated `for ... := range slice` loop the
+// hidden index satisfies -1 <= rangeindex < len(slice) at the loop head.
+func (e *Exec) autoRangeInv(fr *frame, st *State, hb *ssa.BasicBlock) string {
+	if hb.Comment != "rangeindex.loop" {
+		return ""
+	}
+	var cell *ssa.Alloc
+	var lenv ssa.Value
+	for _, in := range hb.Instrs {
+		switch x := in.(type) {
+		case *ssa.Store:
+			if a, ok := x.Addr.(*ssa.Alloc); ok && a.Comment == "rangeindex" {
+				cell = a
+			}
+		case *ssa.BinOp:
+			if x.Op == token.LSS {
+				lenv = x.Y
+			}
+		}
+	}
+	if cell == nil || lenv == nil {
+		return ""
+	}
+	ri, ok := st.cells[cell]
+	if !ok || ri.T == "" {
+		return ""
+	}
+	lv := e.val(fr, lenv)
+	if lv.T == "" || lv.Bad != "" {
+		return ""
+	}
+	return and(le("(- 1)", ri.T), lt(ri.T, lv.T))
+}
+
 func (e *Exec) checkInvariants(fr *frame, st *State, ord int, kind string, hb *ssa.BasicBlock) {
+	if g := e.autoRangeInv(fr, st, hb); g != "" {
+		e.oblige(fr, st, fmt.Sprintf("%s:%d", kind, ord), "range index stays within -1 .. len-1 (automatic)", firstPos(hb), g)
+	}
 	for _, c := range e.loopClauses(fr, ord, "invariant") {
 		env := e.specEnv(fr, st, hb)
 		v := env.eval(c.E)
@@ -391,6 +430,9 @@ func (e *Exec) checkInvariants(fr *frame, st *State, ord int, kind string, hb *s
 }
 
 func (e *Exec) assumeInvariants(fr *frame, st *State, ord int, hb *ssa.BasicBlock) {
+	if g := e.autoRangeInv(fr, st, hb); g != "" {
+		e.ctx.assume(imp(st.pc, g))
+	}
 	for _, c := range e.loopClauses(fr, ord, "invariant") {
 		env := e.specEnv(fr, st, hb)
 		v := env.eval(c.E)
